@@ -365,6 +365,15 @@ func (n *node) reconcile() (ok bool, lastErr string) {
 	for {
 		select {
 		case lastErr = <-done:
+			if lastErr == "" {
+				// Start goes on with the flow's own start-up check and panics if it fails (the FEP flow checks the block gap
+				// between its start block and the last certificate)
+				fctx, fcancel := context.WithTimeout(context.Background(), 20*time.Second)
+				if err := n.sender.VerifFlowCheckInitialStatus(fctx); err != nil {
+					lastErr = "flow start-up check: " + err.Error()
+				}
+				fcancel()
+			}
 			n.ready = lastErr == ""
 			return n.ready, lastErr
 		case <-tick.C:
